@@ -9,7 +9,9 @@ NB=$(ls -d ~/.rustup/toolchains/nightly-x86_64-unknown-linux-gnu/lib/rustlib/x86
 cd /verif/harness
 CONSTS=$(python3 /verif/tools/extract_consts.py --repo /repo | tail -1)
 export CARGO_NET_OFFLINE=true
-RUSTFLAGS="-C instrument-coverage" cargo +nightly build --release --offline --target-dir $S/target >$S/build.log 2>&1
+# (build scripts and proc macros are instrumented too: keep their profiles out of the crate directories)
+LLVM_PROFILE_FILE="$S/raw/build-%p-%m.profraw" RUSTFLAGS="-C instrument-coverage" cargo +nightly build --release --offline --target-dir $S/target >$S/build.log 2>&1
+rm -f $S/raw/build-*.profraw
 for i in 01 02 03 04 05 06 07 08 09 10 11 12 13 14 15 16 17 18 19; do
   LLVM_PROFILE_FILE="$S/raw/C$i-%p-%m.profraw" ATTO_CONSTS="$CONSTS" timeout 1800 $S/target/release/atto-verif gen C$i 1 $TIER $S/out/C$i >/dev/null 2>&1 || echo "C$i gen rc=$?"
   $NB/llvm-profdata merge -sparse $S/raw/C$i-*.profraw -o $S/C$i.profdata
